@@ -94,38 +94,52 @@ def build_profile(cands, ballots, names=None, cand_order=None):
     return PreferenceProfile(ballots=tuple(bl), candidates=tuple(nm[c] for c in order))
 
 
-def constructor(cfg, profile):
+DEFAULTS = {"m": 1, "quota": "droop", "simul": True, "tb": "none", "xfer": "fractional", "m1": 2}
+
+
+def constructor(cfg, profile, omit_defaults=False):
+    """the constructor call of the rule; with omit_defaults every argument whose value is the documented default is left out, so that the
+    defaults themselves (m=1, quota='droop', simultaneous=True, transfer=fractional_transfer, tiebreak=None, m_1=2, m_2=1) are exercised"""
     r = cfg["rule"]
     tb = None if cfg["tb"] == "none" else cfg["tb"]
     xfer = {"fractional": VE.fractional_transfer, "random": VE.random_transfer}.get(cfg["xfer"])
+
+    def kw(**k):
+        names = {"m": "m", "quota": "quota", "simultaneous": "simul", "tiebreak": "tb", "transfer": "xfer", "m_1": "m1", "m_2": "m"}
+        out = {}
+        for a, v in k.items():
+            if omit_defaults and cfg[names[a]] == DEFAULTS[names[a]] and not (a == "m" and r in ("RandomDictator", "BoostedRandomDictator", "PluralityVeto")):
+                continue
+            out[a] = v
+        return out
+
     if r == "STV":
-        return lambda: VE.STV(profile, m=cfg["m"], transfer=xfer, quota=cfg["quota"], simultaneous=cfg["simul"], tiebreak=tb)
+        return lambda: VE.STV(profile, **kw(m=cfg["m"], transfer=xfer, quota=cfg["quota"], simultaneous=cfg["simul"], tiebreak=tb))
     if r == "IRV":
-        return lambda: VE.IRV(profile, quota=cfg["quota"], tiebreak=tb)
+        return lambda: VE.IRV(profile, **kw(quota=cfg["quota"], tiebreak=tb))
     if r == "SequentialRCV":
-        return lambda: VE.SequentialRCV(profile, m=cfg["m"], quota=cfg["quota"], simultaneous=cfg["simul"], tiebreak=tb)
+        return lambda: VE.SequentialRCV(profile, **kw(m=cfg["m"], quota=cfg["quota"], simultaneous=cfg["simul"], tiebreak=tb))
     if r in ("Plurality", "SNTV"):
-        return lambda: getattr(VE, r)(profile, m=cfg["m"], tiebreak=tb)
+        return lambda: getattr(VE, r)(profile, **kw(m=cfg["m"], tiebreak=tb))
     if r == "Borda":
         vec = [F(x[0], x[1]) for x in cfg["vec"]] or None
-        return lambda: VE.Borda(profile, m=cfg["m"], score_vector=vec, tiebreak=tb)
+        return lambda: VE.Borda(profile, score_vector=vec, **kw(m=cfg["m"], tiebreak=tb))
     if r == "TopTwo":
-        return lambda: VE.TopTwo(profile, tiebreak=tb)
+        return lambda: VE.TopTwo(profile, **kw(tiebreak=tb))
     if r == "Alaska":
-        return lambda: VE.Alaska(profile, m_1=cfg["m1"], m_2=cfg["m"], transfer=xfer, quota=cfg["quota"],
-                                 simultaneous=cfg["simul"], tiebreak=tb)
+        return lambda: VE.Alaska(profile, **kw(m_1=cfg["m1"], m_2=cfg["m"], transfer=xfer, quota=cfg["quota"], simultaneous=cfg["simul"], tiebreak=tb))
     if r == "DominatingSets":
         return lambda: VE.DominatingSets(profile)
     if r == "CondoBorda":
-        return lambda: VE.CondoBorda(profile, m=cfg["m"])
+        return lambda: VE.CondoBorda(profile, **kw(m=cfg["m"]))
     if r in ("RandomDictator", "BoostedRandomDictator"):
         return lambda: getattr(VE, r)(profile, m=cfg["m"])
     if r == "PluralityVeto":
-        return lambda: VE.PluralityVeto(profile, m=cfg["m"], tiebreak=tb)
+        return lambda: VE.PluralityVeto(profile, m=cfg["m"], **kw(tiebreak=tb))
     raise Machinery("unknown rule " + r)
 
 
-def run_once(cfg, cands, ballots, names=None, cand_order=None, keep_obj=False):
+def run_once(cfg, cands, ballots, names=None, cand_order=None, keep_obj=False, omit_defaults=False):
     """one run of the real code -> (header fields, events[, election]); random draws come from whatever source is active"""
     install_recorder()
     nm = names or {c: c for c in cands}
@@ -140,7 +154,7 @@ def run_once(cfg, cands, ballots, names=None, cand_order=None, keep_obj=False):
     with quiet():
         try:
             profile = build_profile(cands, ballots, nm, cand_order)
-            e = constructor(cfg, profile)()
+            e = constructor(cfg, profile, omit_defaults)()
         except NonTermination:
             err = "NonTermination"
         except Exception as ex:  # noqa
@@ -206,7 +220,7 @@ def _evkey(ev):
     return json.dumps(e, sort_keys=True)
 
 
-def record(cfg, cands, ballots, mode="explore", max_paths=400, names=None, cand_order=None, seed=0):
+def record(cfg, cands, ballots, mode="explore", max_paths=400, names=None, cand_order=None, seed=0, omit_defaults=False):
     """All abstract traces of one input.
 
     explore: every outcome of every random draw is enumerated (scripted source); traces that agree
@@ -217,7 +231,7 @@ def record(cfg, cands, ballots, mode="explore", max_paths=400, names=None, cand_
     rng.install()
     if mode == "real":
         rng.seed_real(seed)
-        hdr, events = run_once(cfg, cands, ballots, names, cand_order)
+        hdr, events = run_once(cfg, cands, ballots, names, cand_order, omit_defaults=omit_defaults)
         t = dict(hdr)
         t["events"] = events
         return [t], {"paths": 1, "explored": False}
@@ -225,7 +239,7 @@ def record(cfg, cands, ballots, mode="explore", max_paths=400, names=None, cand_
     hdr0 = [None]
 
     def f():
-        hdr, events = run_once(cfg, cands, ballots, names, cand_order)
+        hdr, events = run_once(cfg, cands, ballots, names, cand_order, omit_defaults=omit_defaults)
         hdr0[0] = hdr
         return events
 
@@ -233,12 +247,12 @@ def record(cfg, cands, ballots, mode="explore", max_paths=400, names=None, cand_
         for events, pr, log in EX.runs(f, max_paths=max_paths):
             paths.append((events, pr, hdr0[0]))
     except TooManyPaths:
-        return record(cfg, cands, ballots, "real", names=names, cand_order=cand_order, seed=seed)[0], \
+        return record(cfg, cands, ballots, "real", names=names, cand_order=cand_order, seed=seed, omit_defaults=omit_defaults)[0], \
             {"paths": len(paths), "explored": False, "too_many": True}
     except ReplayDiverged:
         # the code consulted a random primitive the scripted source does not model: its runs cannot be enumerated.  Not a verdict:
         # fall back to one seeded real run (validated by TLC without probability labels) and say so in the trace info.
-        return record(cfg, cands, ballots, "real", names=names, cand_order=cand_order, seed=seed)[0], \
+        return record(cfg, cands, ballots, "real", names=names, cand_order=cand_order, seed=seed, omit_defaults=omit_defaults)[0], \
             {"paths": len(paths), "explored": False, "unscripted_randomness": True}
     # trie of abstract event sequences with exact probabilities; the part of the header that depends on a random draw (the voter
     # order PluralityVeto shuffles in its constructor) is the first edge of the trie
